@@ -254,9 +254,18 @@ func (c *Confirmer) Process(inputs []Input, results []Result, s *Summary) {
 	add(s.Panics, "no-panic", "panic")
 	add(s.Crashes, "no-panic", "crash")
 	sort.Slice(jobs, func(a, b int) bool { return jobs[a].feature < jobs[b].feature })
-	var wg sync.WaitGroup
-	for _, j := range jobs {
-		for _, i := range j.idx {
+	// round 0: the shortest input of every signature; round 1: the second
+	// shortest for the signatures the first did not confirm
+	for round := 0; round < 2; round++ {
+		var wg sync.WaitGroup
+		for _, j := range jobs {
+			c.mu.Lock()
+			have := c.confirmed[j.feature] > 0
+			c.mu.Unlock()
+			if have || round >= len(j.idx) {
+				continue
+			}
+			i := j.idx[round]
 			wg.Add(1)
 			c.mu.Lock()
 			c.n += 2
@@ -267,8 +276,8 @@ func (c *Confirmer) Process(inputs []Input, results []Result, s *Summary) {
 				c.confirmOne(j, &inputs[i], &results[i], dir, k)
 			}(j, i, k)
 		}
+		wg.Wait()
 	}
-	wg.Wait()
 	// slow lane for signatures that no probe reproduced
 	var again []int
 	for _, j := range jobs {
@@ -478,7 +487,7 @@ func Run(ctx *core.Ctx) {
 	}
 	t0 := time.Now()
 	phase := map[string]float64{}
-	models := StartModels(ctx, "lexer,parse-c05")
+	models := StartModels(ctx, "paths,lexer,parse-c05")
 	// batch 1: the families that do not depend on TLC output run while TLC works
 	inputs, counts, err := BuildInputs(ctx, nil)
 	if err != nil {
@@ -526,6 +535,14 @@ func Run(ctx *core.Ctx) {
 	for i := range results {
 		results[i].ID = i
 	}
+	var tw sync.WaitGroup
+	tw.Add(1)
+	go func() {
+		defer tw.Done()
+		t3 := time.Now()
+		validateSample(ctx, results)
+		phase["trace_validation_s"] = time.Since(t3).Seconds()
+	}()
 	s := Summarize(inputs, results)
 	ctx.AddEvals(int64(s.Returned))
 	seen := map[string]struct{}{}
@@ -566,9 +583,16 @@ func Run(ctx *core.Ctx) {
 	if len(s.Lost) > 0 {
 		ctx.ToolError("%d inputs were lost by their worker (first: %s)", len(s.Lost), results[s.Lost[0]].Err)
 	}
-	t3 := time.Now()
-	// M3: protocol validation of recorded traces by TLC
-	evs, idx := SampleTraces(results, ctx.Pick(4000, 40000), ctx.Seed)
+	tw.Wait()
+	Coverage(ctx, modelEdges(models), pool.Edges())
+	models.Finish()
+	ctx.Extra["phase_seconds"] = phase
+}
+
+// validateSample has TLC validate a seeded sample of the recorded traces (M3).
+func validateSample(ctx *core.Ctx, results []Result) {
+	evs, _ := SampleTraces(results, ctx.Pick(4000, 40000), ctx.Seed)
+	rej := map[string]int{}
 	for lo := 0; lo < len(evs); lo += 10000 {
 		hi := lo + 10000
 		if hi > len(evs) {
@@ -579,21 +603,15 @@ func Run(ctx *core.Ctx) {
 			ctx.ToolError("%v", err)
 			break
 		}
-		rej := map[string]int{}
 		for _, b := range bad {
 			rej[b.Rule]++
-			_ = idx
-		}
-		if len(rej) > 0 {
-			// order anomalies are drift of the implementation-shaped protocol;
-			// return-before-scanner-exit is property C18 and judged there.
-			ctx.Extra["protocol_trace_rejections"] = rej
 		}
 	}
-	phase["trace_validation_s"] = time.Since(t3).Seconds()
-	Coverage(ctx, modelEdges(models), pool.Edges())
-	models.Finish()
-	ctx.Extra["phase_seconds"] = phase
+	if len(rej) > 0 {
+		// order anomalies are drift of the implementation-shaped protocol;
+		// return-before-scanner-exit is property C18 and judged there.
+		ctx.Extra["protocol_trace_rejections"] = rej
+	}
 }
 
 func modelEdges(m *Models) map[string]struct{} {
